@@ -100,7 +100,8 @@ def fieldsLine (st : FdRun) (lineNo : Nat) (line : String) : Except String (FdRu
           let aliased := after.filter fun (_, a, b) => a != b
           (if perr == "-" then [] else [s!"PROPFAIL C20 accepts_valid_shape {tag} perr={perr}"]) ++
           (if perr != "-" || names == wantNames then [] else [s!"PROPFAIL C20 names_exact {tag} names={names} want={wantNames}"]) ++
-          (if perr != "-" || (reqs.all fun r => wantNames.contains r) then [] else [s!"PROPFAIL C20 requests_only_named {tag} reqs={reqs} names={wantNames}"]) ++
+          (if perr != "-" || (reqs.all fun r => wantNames.contains r || ((parseXList (get "listed")).getD []).contains r) then [] else [s!"PROPFAIL C20 requests_only_named {tag} reqs={reqs} names={wantNames}"]) ++
+          (if perr.startsWith "panic" then [s!"PROPFAIL C10 no_panic_on_duplicates {tag} perr={perr}"] else []) ++
           (if perr == "-" && viaNew && !(wantNames.all fun n => reqs.contains n) then [s!"PROPFAIL C20 all_named_requested {tag} reqs={reqs} names={wantNames}"] else []) ++
           (if perr != "-" || wrongVals.isEmpty then [] else [s!"PROPFAIL C20 apply_fills {tag} wrong={wrongVals.map (·.1)} vals={get "vals"}"]) ++
           (if get "untouched" == "1" then [] else [s!"PROPFAIL C20 untagged_untouched {tag} vals={get "vals"}"]) ++
